@@ -2520,7 +2520,7 @@ func parseOptions(index *int, opts *Options, allArgs []string) error {
 		case "+c", "--no-color":
 			opts.Theme = tui.NoColorTheme()
 		case "+2", "--no-256":
-			opts.Theme = tui.Default16
+			opts.Theme = dupeTheme(tui.Default16)
 		case "--black":
 			opts.Black = true
 		case "--no-black":
